@@ -1219,15 +1219,18 @@ impl<'ast, 'res> Resolver<'ast, 'res> {
             Expr::Unary { op, expr, .. } => {
                 let t = self.infer_expr_type(expr)?;
                 match op {
+                    // A dynamically typed operand is accepted by `check_expr` and checked
+                    // at run time; the result type is fixed by the operator either way.
                     UnaryOp::Not => {
-                        if t == ValueType::Bool || t == ValueType::Null {
+                        if t == ValueType::Bool || t == ValueType::Null || t == ValueType::Dynamic
+                        {
                             Some(ValueType::Bool)
                         } else {
                             None
                         }
                     }
                     UnaryOp::Minus => {
-                        if t == ValueType::Number {
+                        if t == ValueType::Number || t == ValueType::Dynamic {
                             Some(ValueType::Number)
                         } else {
                             None
